@@ -50,7 +50,8 @@ def main():
                 t0 = time.time()
                 rc, out = sh("./check %s --tier quick" % c, cwd=VERIF,
                              env={"DAGRT_REPO": wt, "VERIF_EVIDENCE_DIR": "/tmp/seed_evidence"})
-                lines = [l for l in out.splitlines() if l.startswith("VIOLATION") or l.startswith("KNOWN-FINDING")]
+                lines = [l for l in out.splitlines() if l.startswith("VIOLATION")] + \
+                        [l for l in out.splitlines() if l.startswith("KNOWN-FINDING")]     # violations first
                 res["checks"][c] = {"exit": rc, "lines": lines[:6], "wall_s": round(time.time() - t0, 1)}
                 # keep the first replay as illustration
                 for l in lines:
